@@ -1,4 +1,3 @@
-(* WIP *)
 (* Finite exploration of an interleaving model (Base/Sched.v): if a finite list of configurations
    contains the initial one and is closed under one schedule entry of every thread, every schedule
    ends in that list; a property checked on the list (vm_compute) therefore holds after every
